@@ -6,19 +6,19 @@ class C36(Prop):
     pid = "C36"
     check_mod = "C36"
     drivers = [dict(pkg="internal/metrics", test="TestVerifC36")]
-    n_quick = 150
+    n_quick = 120
     n_thorough = 3000
-    shard = 40
+    shard = 30
     ready = True
     rule = ("the real onMetrics handler in front of stub servers for EVERY entity kind (paths with readers, forward "
             "destinations per path, HLS sessions and muxers, RTSP/RTSPS conns and sessions, RTMP/RTMPS conns, SRT conns, "
-            "WebRTC sessions, MoQ sessions): 4 profiles (all servers / random subset / paths only / one server), 0-3 "
+            "WebRTC sessions, MoQ sessions): profiles: all servers 20% / random subset 40% / paths only 20% / one server 20%, 0-3 "
             "entities per list (25% empty), list errors (1/12), exact duplicates, every string field a client-style "
             "string (quotes, backslashes, newlines, braces, commas, NUL, invalid UTF-8, URL metacharacters, the "
             "injection witness), counters incl. 0 and 2^63-1, floats incl. 0, fractions, 1e21, 5e-324, MaxFloat64, "
             "+-Inf, NaN, random bit patterns; queries: none (30%), type= (existing kind, mostly one that has "
             "entities; unknown values), one filter (mostly the key of an existing entity), type+filter of the same / "
-            "another kind, 2-3 filters, forward_dests with path= / forward_dest=, unrelated parameters. Shipped: "
+            "another kind, 2-3 filters, the own filter of every kind at once (10%), forward_dests with path= / forward_dest=, unrelated parameters. Shipped: "
             "every scalar field of every entity (by reflection), the query, the body, the expected samples. "
             "Non-trivial = an entity with a quote, backslash or newline in a string field is shown")
     trusted_base = ["Coq 8.16.1 kernel + VM (primitive 63-bit integers only to ship byte strings compactly)",
